@@ -20,6 +20,8 @@ ORDER_FREE = {"any", "all", "count", "sum", "product", "len", "is_empty", "conta
               "min_by_key", "max_by_key", "hash"}
 INPLACE_SORTS = {"sort_by_key", "sort_by", "sort_by_cached_key", "sort_unstable_by_key", "sort_unstable_by"}
 SORTS = INPLACE_SORTS | {"sorted_by_key", "sorted_by", "sorted_by_cached_key"}
+ITERATIONS = {"for_each", "fold", "try_fold", "try_for_each", "rfold", "reduce"}
+ITER_KIND = "iterate"           # every spelling of "visit all elements in their (hash) order with side effects / an accumulator": for loop, for_each, (try_)fold
 SORT_KIND = "sort-by-key"     # every spelling of "sort by a key / comparator": ties keep the incoming (hash) order, so the key must be total
 ORDERED_TARGETS = re.compile(r"^(std::result::Result<|std::option::Option<)?(std::vec::Vec<|std::string::String|std::collections::VecDeque<|std::collections::LinkedList<|std::boxed::Box<\[)")
 UNORDERED_TARGETS = re.compile(r"^(std::result::Result<|std::option::Option<)?std::collections::(HashSet|HashMap|BTreeSet|BTreeMap)<")
@@ -168,9 +170,9 @@ def analyse_body(mir, body):
         r0 = root(tainted_args[0].place.local)
         if r0 in sorted_roots and name not in INPLACE_SORTS and any(sb != bb.idx and sb in dom.get(bb.idx, ()) for sb in sorted_roots[r0]):
             continue    # consumed after (dominated by) an in-place sort of the same vector
-        kind = SORT_KIND if name in SORTS else name
+        kind = SORT_KIND if name in SORTS else (ITER_KIND if name in ITERATIONS else name)
         if name == "next" and bb.idx in loop_blocks:
-            kind = "for-loop"
+            kind = ITER_KIND
         callee_short = re.sub(r"<[^>]*>", "", t.callee)
         callee_short = "::".join(callee_short.split("::")[-2:])
         sinks.append({"kind": kind, "callee": t.callee, "origin": org, "line": t.line})
